@@ -24,7 +24,7 @@ CONSTANTS N,             \* number of cells of each input vector
           SetPbViaTemp,  \* TRUE: pullback of item assignment reads ybar[sl] into a temporary first (repaired tree)
           FreshBars,     \* TRUE: every reverse sweep allocates new adjoint buffers (the code); FALSE: a sweep with the same
                          \*       degree and direction count clears and reuses the buffers of the previous one
-          Prefix,        \* "plain" | "buffered": the fixed beginning of every program
+          Prefix,        \* "plain" | "buffered" | "two" | "overwritten": the fixed beginning of every program
           DrvX, DrvV, DrvW,   \* catalogues of driver arguments (vectors of rationals)
           MaxAbs
 
@@ -313,6 +313,13 @@ PrefixProg ==
   IF Prefix = "plain" THEN << Ins("in", 0, 0, 0, 0, RZero), Ins("zeros", 0, 0, 0, 0, RZero) >>
   ELSE IF Prefix = "two" THEN     \* an operation on x is recorded BEFORE the second independent z is wrapped
        << Ins("in", 0, 0, 0, 0, RZero), Ins("zeros", 0, 0, 0, 0, RZero), Ins("get", 1, 0, 1, 0, RZero), Ins("in2", 0, 0, 0, 0, RZero) >>
+  ELSE IF Prefix = "overwritten" THEN
+       \* g1 = x[0]; g2 = x[1]; buf[0] = g1; v = buf[0]; m = v*v; buf[0] = m
+       \* (a buffer entry that is written, read by a nonlinear operation and overwritten: every sweep has to restore it)
+       << Ins("in", 0, 0, 0, 0, RZero), Ins("zeros", 0, 0, 0, 0, RZero),
+          Ins("get", 1, 0, 1, 0, RZero), Ins("get", 1, 0, 2, 0, RZero),
+          Ins("set", 2, 3, 1, 0, RZero), Ins("get", 2, 0, 1, 0, RZero),
+          Ins("mul", 6, 6, 0, 0, RZero), Ins("set", 2, 7, 1, 0, RZero) >>
   ELSE << Ins("in", 0, 0, 0, 0, RZero), Ins("zeros", 0, 0, 0, 0, RZero),
           Ins("get", 1, 0, 1, 0, RZero), Ins("get", 1, 0, 2, 0, RZero),
           Ins("set", 2, 3, 1, 0, RZero), Ins("get", 2, 0, 1, 0, RZero) >>
